@@ -11,9 +11,14 @@
   * `mulLow o r`          : low three words of `U192.mul o r`
   * `knuthK qh ur u1 u0 x0 k` : the "estimate, then up to two corrections" fragment (3 occurrences)
   * `pathA`, `pathB1`, `pathB2`, `pathB3`(`b`,`c`,`d`), `pathC`, `divStaged`
-  * `U192_div_staged : Gen.U192.div n o = divStaged n o`
+  * `U192_div_staged : Gen.U192.div n o = divStaged 18446744073709551615 n o`
+    (`math.MaxUint64` is a parameter `mx` of the B3 stages: with the literal in place the kernel's
+    definitional-equality check evaluates the matchers on `U192.sub n (… MaxUint64 …)` and diverges;
+    the tactic `generalize_opaque` abstracts it so that the kernel checks the `rfl` with `mx` a
+    variable, via `gen_elim` / `eq_of_eq`)
 -/
 import D128.Gen.Int
+import Lean
 
 set_option autoImplicit false
 set_option maxRecDepth 4096
@@ -103,16 +108,16 @@ low divisor word `u0` and the next dividend word `x0`; the result is passed to `
   knuthK r0_3 ur_2 u.w1 u.w0 v_2.w0 fun r0 =>
     fix192 n o (mulLow o (U192.mk r0 r1_1 (0 : UInt64))) (U192.mk r0 r1_1 (0 : UInt64))
 
-@[reducible] def pathB3c (n o u : U192) (v_2 : U256) (r1_1 : UInt64) (rem_3 : U192) :
+@[reducible] def pathB3c (mx : UInt64) (n o u : U192) (v_2 : U256) (r1_1 : UInt64) (rem_3 : U192) :
     Go.GoM (U192 × U192) := do
   if (rem_3.w1 == u.w1) then
-    pathB3d n o u v_2 r1_1 rem_3.w0 (18446744073709551615 : UInt64)
+    pathB3d n o u v_2 r1_1 rem_3.w0 mx
   else
     let t_51 ← Go.bits.Div64 rem_3.w1 rem_3.w0 u.w1
     let (r_52, r_53) := t_51
     pathB3d n o u v_2 r1_1 r_53 r_52
 
-@[reducible] def pathB3b (n o u : U192) (v_2 : U256) (r1 : UInt64) : Go.GoM (U192 × U192) := do
+@[reducible] def pathB3b (mx : UInt64) (n o u : U192) (v_2 : U256) (r1 : UInt64) : Go.GoM (U192 × U192) := do
   let mut r1_1 := r1
   let mut q192 : U192 := (Gen.U192.mul64 u r1_1)
   let (r_45, r_46) := Gen.U192.sub (U192.mk v_2.w1 v_2.w2 v_2.w3) q192
@@ -121,13 +126,13 @@ low divisor word `u0` and the next dividend word `x0`; the result is passed to `
     let (r_47, r_48) := Gen.U192.sub rem_3 u
     rem_3 := r_47
     r1_1 := (r1_1 + (1 : UInt64))
-  pathB3c n o u v_2 r1_1 rem_3
+  pathB3c mx n o u v_2 r1_1 rem_3
 
-@[reducible] def pathB3 (n o : U192) (i : UInt64) (u : U192) : Go.GoM (U192 × U192) := do
+@[reducible] def pathB3 (mx : UInt64) (n o : U192) (i : UInt64) (u : U192) : Go.GoM (U192 × U192) := do
   let mut v_2 : U256 := (Gen.U256.lsh (U256.mk n.w0 n.w1 n.w2 (0 : UInt64)) i)
   let t_36 ← Go.bits.Div64 v_2.w3 v_2.w2 u.w1
   let (r_37, r_38) := t_36
-  knuthK r_37 r_38 u.w1 u.w0 v_2.w1 fun r1 => pathB3b n o u v_2 r1
+  knuthK r_37 r_38 u.w1 u.w0 v_2.w1 fun r1 => pathB3b mx n o u v_2 r1
 
 @[reducible] def pathC (n o : U192) : Go.GoM (U192 × U192) := do
   let mut i_1 : UInt64 := (Go.conv (Go.bits.LeadingZeros64 o.w2) : UInt64)
@@ -147,7 +152,7 @@ low divisor word `u0` and the next dividend word `x0`; the result is passed to `
     r0_4 := (r0_4 - (1 : UInt64))
   fix192 n o (mulLow o (U192.mk r0_4 (0 : UInt64) (0 : UInt64))) (U192.mk r0_4 (0 : UInt64) (0 : UInt64))
 
-@[reducible] def divStaged (n o : U192) : Go.GoM (U192 × U192) :=
+@[reducible] def divStaged (mx : UInt64) (n o : U192) : Go.GoM (U192 × U192) :=
   if (o.w2 == (0 : UInt64)) = true then
     if (o.w1 == (0 : UInt64)) = true then pathA n o
     else
@@ -158,13 +163,45 @@ low divisor word `u0` and the next dividend word `x0`; the result is passed to `
         pathB2 n o (Go.conv (Go.bits.LeadingZeros64 o.w1) : UInt64)
           (Gen.U192.lsh o (Go.conv (Go.bits.LeadingZeros64 o.w1) : UInt64))
       else
-        pathB3 n o (Go.conv (Go.bits.LeadingZeros64 o.w1) : UInt64)
+        pathB3 mx n o (Go.conv (Go.bits.LeadingZeros64 o.w1) : UInt64)
           (Gen.U192.lsh o (Go.conv (Go.bits.LeadingZeros64 o.w1) : UInt64))
   else pathC n o
 
-/-- the generated division is, up to unfolding of the stage definitions, `divStaged`. -/
-theorem U192_div_staged (n o : U192) : Gen.U192.div n o = divStaged n o := by
+
+
+/-- identity on equations; used to pin the statement at which the kernel checks a `rfl` proof. -/
+theorem eq_of_eq {α : Type} {a b : α} (h : a = b) : a = b := h
+
+theorem gen_elim {α : Type} (a : α) (P : α → Prop) (h : ∀ x, P x) : P a := h a
+
+open Lean Meta Elab Tactic in
+/-- `generalize_opaque e with x`: like `generalize e = x`, but the resulting proof term is
+`gen_elim e (fun x => goal[x]) (fun x => proof)` — headed by a constant, so that it is not
+beta-reduced away when metavariables are instantiated and the kernel checks the inner proof with
+`x` as a variable. -/
+elab "generalize_opaque " t:term " with " x:ident : tactic => do
+  let goal ← getMainGoal
+  goal.withContext do
+    let e ← elabTerm t none
+    let e ← instantiateMVars e
+    let tgt ← instantiateMVars (← goal.getType)
+    let abst ← kabstract tgt e
+    let α ← inferType e
+    let P := mkLambda x.getId .default α abst
+    let newTy := mkForall x.getId .default α abst
+    let newGoal ← mkFreshExprSyntheticOpaqueMVar newTy
+    goal.assign (mkApp4 (mkConst ``gen_elim) α e P newGoal)
+    let (_, g) ← newGoal.mvarId!.intro x.getId
+    replaceMainGoal [g]
+
+/-- the generated division is, up to unfolding of the stage definitions, `divStaged`.
+(The constant `math.MaxUint64` is abstracted before the `rfl` check: with the literal in place the
+kernel's definitional-equality check diverges.) -/
+theorem U192_div_staged (n o : U192) :
+    Gen.U192.div n o = divStaged (18446744073709551615 : UInt64) n o := by
   unfold Gen.U192.div
+  generalize_opaque (18446744073709551615 : UInt64) with mx
+  refine eq_of_eq ?_
   with_reducible rfl
 
 end D128.Proofs.Total
